@@ -63,6 +63,21 @@ func toolPresent(name string) bool {
 	return err == nil
 }
 
+// testDataDirs returns test/data and its artificial-* subdirectories.
+func testDataDirs(repo string) []string {
+	root := filepath.Join(repo, "test", "data")
+	dirs := []string{root}
+	if ents, err := os.ReadDir(root); err == nil {
+		for _, e := range ents {
+			if e.IsDir() && strings.HasPrefix(e.Name(), "artificial-") {
+				dirs = append(dirs, filepath.Join(root, e.Name()))
+			}
+		}
+	}
+	sort.Strings(dirs)
+	return dirs
+}
+
 // testData lists /repo/test/data files per transformer kind (by extension).
 var testData map[int][]string
 
@@ -73,17 +88,22 @@ func loadTestData(repo string) {
 	testData = map[int][]string{}
 	ext := map[string]int{".gz": xformKind("gzip"), ".zlib": xformKind("zlib"), ".deflate": xformKind("deflate"),
 		".bz2": xformKind("bzip2"), ".xz": xformKind("xz"), ".lzma": xformKind("lzma"), ".lz": xformKind("lzip")}
-	ents, err := os.ReadDir(filepath.Join(repo, "test", "data"))
-	if err != nil {
-		return
-	}
-	for _, e := range ents {
-		if e.IsDir() {
+	// The top level, and the artificial-* directories: hand-made edge cases
+	// (degenerate Huffman tables, maximum distances, back-references crossing
+	// blocks, filter chains...).
+	for _, dir := range testDataDirs(repo) {
+		ents, err := os.ReadDir(dir)
+		if err != nil {
 			continue
 		}
-		if k, ok := ext[filepath.Ext(e.Name())]; ok {
-			if fi, err := e.Info(); err == nil && fi.Size() <= 1<<20 {
-				testData[k] = append(testData[k], filepath.Join(repo, "test", "data", e.Name()))
+		for _, e := range ents {
+			if e.IsDir() {
+				continue
+			}
+			if k, ok := ext[filepath.Ext(e.Name())]; ok {
+				if fi, err := e.Info(); err == nil && fi.Size() <= 1<<20 {
+					testData[k] = append(testData[k], filepath.Join(dir, e.Name()))
+				}
 			}
 		}
 	}
@@ -102,11 +122,11 @@ func drawStream(t *sim.Tape, repo string, maxLen int, allowTestData bool) (*stre
 		name = "gzip"
 	}
 	k := xformKind(name)
-	if allowTestData && len(testData[k]) > 0 && t.Chance(1, 5) {
+	if allowTestData && len(testData[k]) > 0 && t.Chance(1, 4) {
 		p := testData[k][t.Draw(len(testData[k]))]
 		b, err := os.ReadFile(p)
 		if err == nil {
-			st := &stream{kind: k, desc: "test/data/" + filepath.Base(p), data: b}
+			st := &stream{kind: k, desc: "test/data/" + strings.TrimPrefix(p, filepath.Join(repo, "test", "data")+"/"), data: b}
 			if name == "xz" {
 				st.tag = xzFilterTag(b)
 			}
